@@ -1,9 +1,13 @@
 """C05 — Bounds, geometric features and anchor points agree with the coordinates."""
+import copy
+import inspect
 import math
 import typing
 from fractions import Fraction
 
 from ..core import Op, jkey
+from .. import history as hist
+from .. import c05_gen as G5
 from ..leanio import InfraError
 from ..rat import rat, frac, round_once_eq, tol_eq
 from .. import symtrace as st
@@ -26,7 +30,10 @@ THEOREMS = [_T + n for n in [
     "C05_conversion_calls", "C05_conversion_box_ring", "C05_conversion_ring_order",
     "C05_points_degenerate", "C05_points_from_coordinates", "C05_vertex_inside", "C05_dispatch",
     "C05_centroid_inside_partial", "C05_tame_types", "C05_getPoint_inside_partial",
-    "C05_centroid_point", "C05_centroid_time_stamp", "C05_centroid_box"]]
+    "C05_centroid_point", "C05_centroid_time_stamp", "C05_centroid_box",
+    # follow-up: histories and call forms
+    "C05_history_pure", "C05_history_poison", "C05_history_revisit", "C05_call_forms", "C05_call_forms_unary",
+    "C05_sig_shape"]]
 LEVEL_TEXT = ("Lean theorems over the model: compute_bounds is exactly (min time, min freq, max time, max freq) over the "
               "coordinates (unique; time-only types over [0, MAX_FREQUENCY]; polygons: holes inside the shell envelope), it is "
               "the envelope of the modelled shapely conversion, the conversion is the shapely constructor call each "
@@ -41,7 +48,13 @@ LEVEL_TEXT = ("Lean theorems over the model: compute_bounds is exactly (min time
               "from the source on each run by path-exhaustive symbolic tracing and proved equal to the model for all "
               "(validated) inputs; tables (feature keys, Positions literal, MAX_FREQUENCY) are re-extracted and checked by "
               "`decide`; all code paths are run differentially on all nine geometry types, on shared objects (sessions), "
-              "through every construction path, and across re-assignment / model_copy / deepcopy of the coordinates (histories).")
+              "through every construction path, and across re-assignment / model_copy / deepcopy of the coordinates (histories). "
+              "Follow-up: a history of calls in one process is modelled (`runHist`: fresh or changed content, calls, results "
+              "the caller mutates) and proved to be the per-call answers of the pure model on the content the object has at "
+              "that call (`C05_history_pure`, `_poison`, `_revisit`), so every step of a run of the real code is judged on its "
+              "own; Python's binding of positional / keyword arguments is modelled (`bindCall`) and all call forms of the four "
+              "functions are proved to denote the same (geometry, position) (`C05_call_forms`, `_unary`, `C05_sig_shape`), the "
+              "parameter lists being re-read by introspection on every run (`sigOK` by `decide`).")
 LEVEL_NOTE = ("Trusted: Lean kernel, symbolic tracer (ordered-field semantics; shapely constructors / compute_bounds / "
               "geometry_to_shapely / Feature replaced by recording or symbolic stand-ins, by identity of the objects), shapely "
               "`bounds` as min/max of the shell vertices, shapely ring closure, GEOS segment length as sqrt(dx^2+dy^2) in "
@@ -49,6 +62,12 @@ LEVEL_NOTE = ("Trusted: Lean kernel, symbolic tracer (ordered-field semantics; s
               "point_on_surface for areal shapes (post-condition `inside the bounds` monitored, strictly), the centroid of "
               "non-tame polygons is modelled and compared (tolerance 2^-40) but `inside` is only monitored there; binary64 "
               "rounding of `end - start` and `(a + b) / 2` off the dyadic grid (round-once comparison with 2 ulp slack). "
+              "Histories, construction paths (22, incl. unvalidated assignment of ints / tuples / numpy scalars / shared "
+              "lists, subclass instances, pickle), call forms, sibling lifts, tolerance-sized extents (2^-7 ... 2^-40 at "
+              "offsets up to 86400 s / 4 MHz), size thresholds (16 ... 1100 vertices, 300 parts) and two non-dyadic lattices "
+              "are generator-bounded differential runs that validate the model against the code; they decide nothing by "
+              "themselves. Trusted in addition: Python's argument binding as `bindCall` states it; a call without position "
+              "is held to the default the signature declares (the documented 'bottom-left' when it declares none). "
               "Model tied to the code by regenerated obligations and generator-bounded correspondence.")
 TECHNIQUE = ("Lean 4 proof over model; symbolic-trace equality obligations and table obligations regenerated from source; "
              "differential correspondence with Lean-evaluated property statements on the real I/O")
@@ -56,12 +75,25 @@ RULE = ("geometries of all nine types (random on dyadic grids of several scales,
         "multi-geometries, zero-extent, open-ring, closed-loop and self-intersecting corner cases, arbitrary floats) x "
         "{compute_bounds, compute_geometric_features, shapely conversion, every position name incl. unknown ones, centroid "
         "against GEOS's formula, sessions on one shared object through seven construction paths, histories of re-assigned / "
-        "copied objects, type dispatch}; non-trivial = the implementation returned a value; distinct = distinct (operation, input)")
+        "copied objects, type dispatch}; follow-up (HISTORIES.md): single calls through 22 construction paths x 5 call forms "
+        "(positional, keyword, keyword reversed, mixed, position left out); histories through harness/history.py: x, a "
+        "neighbour of x (one coordinate moved by 2^-24, shifted, prefix kept and extended, same end points, parts reordered, "
+        "the same coordinates under another type tag, another call / call form / construction path), x again, on fresh "
+        "objects and on the previous object changed by ten routes (assignment, model_copy(update) shallow / deep, copy / "
+        "deepcopy / pickle + assignment, slice and item assignment inside the coordinate list, unvalidated tuples / ints), "
+        "arguments snapshotted around every call, returned values poisoned in place (list extended, elements edited, arrays "
+        "overwritten) and re-read at the end, 9 types x 6 calls poison sweep; every special and random geometry lifted to its "
+        "sibling types; extents 2^-7 ... 2^-40 at five time and four frequency offsets and bounds decided at the last bits; "
+        "16 / 17 / 256 / 257 / 1023 / 1024 / 1100 vertices and 17 / 300 parts; all 121 points of a 0.01 s and a 0.1 Hz lattice; "
+        "every reported replay is confirmed to fail as the only thing a fresh process does; "
+        "non-trivial = the implementation returned a value; distinct = distinct (operation, input)")
 TRUSTED = ["shapely `bounds` = min/max over the vertices of the converted shape (polygon: shell)",
            "shapely LinearRing closure rule (open ring or closed 3-vertex ring gets its first vertex appended); "
            "`ShCall.realize` (what shapely builds from a constructor call), compared differentially by the `shape` op",
            "GEOS Centroid: fan triangles about the first ring vertex, ring orientation = sign of the fan sum (simple rings), "
            "area > length > points fallback; segment length sqrt(dx*dx+dy*dy) in binary64 supplied by the harness",
+           "Python's binding of positional and keyword arguments to a parameter list (`SE.Bnd.bindCall`); "
+           "`inspect.signature` as the parameter list of the four public functions",
            "symbolic tracer stand-ins: compute_bounds -> symbolic 4-tuple, geometry_to_shapely -> object with symbolic "
            "`bounds`, `centroid`, `point_on_surface` and three `geoms`, Feature -> (term, value) record, shapely "
            "constructors -> recorded calls; geometries built with model_construct (no validation) around symbolic coordinates"]
@@ -79,7 +111,15 @@ NOT_COMPARED = ["error messages (only the error class)",
                 "centroid values of multi-ring shapes with a self-intersecting ring (orientation convention of GEOS not modelled)",
                 "polygons with a hole outside the shell envelope (OGC-invalid): bounds compared with the model "
                 "(shell only, as GEOS does), the all-coordinates clause is not asserted",
-                "the last 2 ulp of differences / half-sums off the dyadic grid (re-associated formulas round differently)"]
+                "the last 2 ulp of differences / half-sums off the dyadic grid (re-associated formulas round differently)",
+                "geometry-like objects that are not instances of the data model's geometry classes (duck-typed `.type` / "
+                "`.coordinates`: a dispatch by isinstance is a legitimate implementation); instances of subclasses are used",
+                "unvalidated coordinates the code does not accept today (numeric strings, numpy arrays put in by assignment)",
+                "which position a call without position means when the signature declares no name as default: held to the "
+                "documented 'bottom-left'; parameter names (keyword calls use the names the signature has now)",
+                "centroid / point_on_surface inside histories (their model needs shapely's answer as a parameter; single calls only)",
+                "the order in which equal results are produced; identity of returned objects (only that a caller's mutation "
+                "of one result never shows in another)"]
 
 TOL = "1/1099511627776"   # 2^-40
 BOUNDS_POS = ["bottom-left", "bottom-right", "top-left", "top-right", "center-left", "center-right",
@@ -253,18 +293,23 @@ def _holds_point(ctx, inp, io):
     return None
 
 
-def _excursion(inp, p):
-    """(relative distance of p outside the real bounds, every violated axis has zero extent)"""
-    b = [frac(x) for x in _impl_bounds(inp)["val"]]
+def _excursion(ctx, inp, p):
+    """(relative distance of p outside the bounds of the coordinates (the model's), every violated axis has zero
+    extent, largest relative extent of a violated axis)"""
+    b = [frac(x) for x in ctx.model("bounds", {"g": inp["g"]})["val"]]
     x, y = frac(p[0]), frac(p[1])
     ex = Fraction(0)
     only_flat = True
+    ext = Fraction(0)
     for v, lo, hi in ((x, b[0], b[2]), (y, b[1], b[3])):
         d = max(lo - v, v - hi, Fraction(0))
-        if d > 0 and lo != hi:
-            only_flat = False
-        ex = max(ex, d / max(Fraction(1), abs(lo), abs(hi)))
-    return float(ex), only_flat
+        scale = max(Fraction(1), abs(lo), abs(hi))
+        if d > 0:
+            ext = max(ext, (hi - lo) / scale)
+            if lo != hi:
+                only_flat = False
+        ex = max(ex, d / scale)
+    return float(ex), only_flat, float(ext)
 
 
 LOW_DIM = ("TimeStamp", "Point", "LineString", "MultiPoint", "MultiLineString")
@@ -296,13 +341,14 @@ def _holds_lib_point(ctx, inp, io):
     r = ctx.model("inside", {"g": inp["g"], "p": io["val"], "tol": None})
     if r.get("val") is True:
         return None
-    ex, flat = _excursion(inp, io["val"])
+    ex, flat, ext = _excursion(ctx, inp, io["val"])
     extra = ""
     if inp["pos"] == "centroid" and _ogc_invalid(inp["g"]):
         mo = ctx.model("centroid", _to_model_centroid(inp))
         same = "val" in mo and all(tol_eq(frac(y), float(frac(x))) for x, y in zip(io["val"], mo["val"]))
         extra = f" ogc_invalid_polygon=True geos_formula={same or not _orientation_free(inp['g'])}"
-    return f"{inp['pos']} outside the bounds; rel_excursion={ex:.3e} zero_extent_axis_only={flat}{extra}"
+    return (f"{inp['pos']} outside the bounds; rel_excursion={ex:.3e} zero_extent_axis_only={flat} "
+            f"violated_axis_rel_extent={ext:.3e}{extra}")
 
 
 def _to_model_lib(inp):
@@ -385,10 +431,19 @@ def _orientation_free(gj):
     return len(rs) <= 1 or all(_ring_simple(r) for r in rs)
 
 
-def _self_intersecting(gj):
-    if gj["type"] not in ("Polygon", "MultiPolygon"):
-        return False
-    return not gen_geom.is_simple(gj)
+def _simple(gj):
+    """OGC validity of a polygonal geometry, decided from the coordinates with shapely objects built here
+    (never through geometry_to_shapely, the code under test); other types: True"""
+    return not _ogc_invalid(gj)
+
+
+def _gen_valid(rng, ty=None, **kw):
+    """gen_geom.gen_valid with the independent validity filter"""
+    for _ in range(50):
+        g = gen_geom.gen_geometry(rng, ty, **kw)
+        if _simple(g):
+            return g
+    return gen_geom.gen_geometry(rng, "BoundingBox", **kw)
 
 
 def _impl_centroid(inp):
@@ -412,16 +467,66 @@ def _cmp_centroid(inp, io, mo):
 
 SESSION_CALLS = ([{"op": "bounds"}, {"op": "features"}, {"op": "shape"}]
                  + [{"op": "point", "pos": p_} for p_ in BOUNDS_POS]
-                 + [{"op": "bounds"}, {"op": "features"}, {"op": "point", "pos": "top-left"}])
-BUILDS = ["validate", "class", "json", "int", "numpy", "tuple", "copy"]
+                 + [{"op": "bounds"}, {"op": "features"}, {"op": "point", "pos": "top-left"}]
+                 # follow-up: the same calls by keyword / mixed / with the position left out (after calls with another one)
+                 + [{"op": "bounds", "form": "kw"}, {"op": "features", "form": "kw"}, {"op": "shape", "form": "kw"},
+                    {"op": "point", "pos": "top-right", "form": "kw"}, {"op": "point", "pos": "center-left", "form": "kw_rev"},
+                    {"op": "point", "pos": "bottom-center", "form": "mixed"}, {"op": "point", "form": "default"}])
+BUILDS = ["validate", "class", "json", "int", "numpy", "tuple", "copy",
+          # follow-up: further construction paths of the same value (HISTORIES.md section 2)
+          "json_cls_reordered", "dict_reordered", "shallow_copy", "copy_copy", "float32", "npint", "nparray",
+          "str", "subclass", "pickle", "raw_int", "raw_tuple", "raw_float32", "raw_npint", "raw_shared"]
 
 
 def _tuples(c):
     return tuple(_tuples(x) for x in c) if isinstance(c, list) else c
 
 
+def _conv(c, leaf):
+    return [_conv(y, leaf) for y in c] if isinstance(c, list) else leaf(c)
+
+
+def _leaf_int(x):
+    return int(x) if float(x).is_integer() else x
+
+
+def _leaf_f32(x):
+    import numpy as np
+    return np.float32(x) if float(np.float32(x)) == float(x) else np.float64(x)
+
+
+def _leaf_npint(x):
+    import numpy as np
+    return np.int64(x) if float(x).is_integer() else np.float64(x)
+
+
+_SUBCLASSES = {}
+
+
+def _subclass(cls):
+    if cls not in _SUBCLASSES:
+        name = "Derived" + cls.__name__
+        _SUBCLASSES[cls] = type(name, (cls,), {"__module__": __name__})
+        globals()[name] = _SUBCLASSES[cls]       # picklable by reference
+    return _SUBCLASSES[cls]
+
+
+def _share(c):
+    """equal sub-lists become one shared list object (a part repeated as the same Python object)"""
+    seen = {}
+
+    def walk(x):
+        if not isinstance(x, list):
+            return x
+        y = [walk(v) for v in x]
+        return seen.setdefault(jkey(y), y)
+    return walk(c)
+
+
 def _build(gj, how):
-    """the same geometry value through another construction path of the data model"""
+    """the same geometry value through another construction path of the data model; the `raw_*` paths
+    put ints / tuples / numpy scalars / shared list objects into the object by plain assignment (geometries
+    are not frozen and do not validate on assignment), everything else goes through the validators"""
     from soundevent import data
     cls = getattr(data, gj["type"])
     c = gen_geom.coords_float(gj)
@@ -430,41 +535,131 @@ def _build(gj, how):
     if how == "json":
         import json
         return data.geometry_validate(json.dumps({"type": gj["type"], "coordinates": c}), mode="json")
+    if how == "json_cls_reordered":
+        import json
+        return cls.model_validate_json(json.dumps({"coordinates": c, "type": gj["type"]}))
+    if how == "dict_reordered":
+        return cls.model_validate({"coordinates": c, "type": gj["type"]})
     if how == "int":
-        def conv(x):
-            if isinstance(x, list):
-                return [conv(y) for y in x]
-            return int(x) if float(x).is_integer() else x
-        return cls(coordinates=conv(c))
+        return cls(coordinates=_conv(c, _leaf_int))
     if how == "numpy":
         import numpy as np
-
-        def conv(x):
-            if isinstance(x, list):
-                return [conv(y) for y in x]
-            return np.float64(x)
-        return cls(coordinates=conv(c))
+        return cls(coordinates=_conv(c, np.float64))
+    if how == "float32":
+        return cls(coordinates=_conv(c, _leaf_f32))
+    if how == "npint":
+        return cls(coordinates=_conv(c, _leaf_npint))
+    if how == "nparray":
+        import numpy as np
+        try:
+            return cls(coordinates=np.array(c, dtype=float) if gj["type"] != "TimeStamp" else np.float64(c))
+        except Exception:  # noqa: BLE001 - ragged coordinates, or arrays no longer accepted by the data model
+            return cls(coordinates=c)
+    if how == "str":
+        try:
+            return cls(coordinates=_conv(c, repr))
+        except Exception:  # noqa: BLE001 - numeric strings are a lax-mode courtesy of the data model
+            return cls(coordinates=c)
     if how == "tuple":
         return cls(coordinates=_tuples(c))
     if how == "copy":
         return gen_geom.to_data(gj).model_copy(deep=True)
+    if how == "shallow_copy":
+        return gen_geom.to_data(gj).model_copy()
+    if how == "copy_copy":
+        return copy.copy(gen_geom.to_data(gj))
+    if how == "pickle":
+        import pickle
+        return pickle.loads(pickle.dumps(gen_geom.to_data(gj)))
+    if how == "subclass":
+        return _subclass(cls)(coordinates=c)
+    if how.startswith("raw_"):
+        obj = gen_geom.to_data(gj)
+        c = gen_geom.from_data(obj)["coordinates"]
+        c = _conv(c, lambda x: float(frac(x)))          # the validated (normalised) value
+        raw = {"raw_int": lambda: _conv(c, _leaf_int), "raw_tuple": lambda: _tuples(c),
+               "raw_float32": lambda: _conv(c, _leaf_f32), "raw_npint": lambda: _tuples(_conv(c, _leaf_npint)),
+               "raw_shared": lambda: _share(c)}[how]()
+        obj.coordinates = raw
+        return obj
     return gen_geom.to_data(gj)
 
 
-def _call_raw(geom, call):
-    """one operation on an existing geometry object: the raw result"""
+# -- call forms (HISTORIES.md section 2: keyword vs positional arguments) ---------------------------
+FORMS = ["pos", "kw", "kw_rev", "mixed", "default"]
+DOCUMENTED_DEFAULT = "bottom-left"      # "position ... Defaults to 'bottom-left'" (docstring of get_geometry_point)
+
+
+def _public():
     from soundevent.geometry import compute_bounds, get_geometry_point, geometry_to_shapely
     from soundevent.geometry.features import compute_geometric_features
+    return {"bounds": compute_bounds, "features": compute_geometric_features, "point": get_geometry_point,
+            "shape": geometry_to_shapely}
+
+
+def _params(fn):
+    """[(name, has_default, default, kind)] of the parameters that can be named in a call (no *args / **kw)"""
+    try:
+        ps = list(inspect.signature(fn).parameters.values())
+    except (TypeError, ValueError):
+        return None
+    return [(p_.name, p_.default is not inspect.Parameter.empty, p_.default, p_.kind) for p_ in ps
+            if p_.kind not in (inspect.Parameter.VAR_POSITIONAL, inspect.Parameter.VAR_KEYWORD)]
+
+
+def _kw_names(o):
+    """names by which the geometry (and the position) can be passed as keywords, or None"""
+    ps = _params(_public()[o])
+    need = 2 if o == "point" else 1
+    if ps is None or len(ps) < need:
+        return None
+    if any(k == inspect.Parameter.POSITIONAL_ONLY for _n, _h, _d, k in ps[:need]):
+        return None
+    return [n for n, _h, _d, _k in ps[:need]]
+
+
+def _declared_default():
+    """the position a call without position asks for, as the signature declares it (None: not a name)"""
+    ps = _params(_public()["point"])
+    if ps is None or len(ps) < 2 or not ps[1][1] or not isinstance(ps[1][2], str):
+        return None
+    return ps[1][2]
+
+
+def _norm_call(call):
+    """the (op, pos) a call form denotes: what `C05_call_forms` says the arguments bind to"""
     o = call["op"]
-    if o == "bounds":
-        return compute_bounds(geom)
-    if o == "features":
-        return compute_geometric_features(geom)
-    if o == "point":
-        return get_geometry_point(geom, call["pos"])
-    if o == "shape":
-        return geometry_to_shapely(geom)
-    raise AssertionError("unknown session call")
+    if o != "point":
+        return {"op": o}
+    if call.get("form") == "default":
+        # the name the signature declares; a signature that declares none (`position=None`, resolved
+        # inside) is held to the documented default
+        return {"op": o, "pos": _declared_default() or DOCUMENTED_DEFAULT}
+    return {"op": o, "pos": call.get("pos", DOCUMENTED_DEFAULT)}
+
+
+def _call_raw(geom, call):
+    """one operation on an existing geometry object, in the given call form: the raw result"""
+    o = call["op"]
+    fn = _public().get(o)
+    if fn is None:
+        raise AssertionError("unknown session call")
+    form = call.get("form", "pos")
+    names = _kw_names(o) if form in ("kw", "kw_rev", "mixed") else None
+    if o != "point":
+        if names is not None:
+            return fn(**{names[0]: geom})
+        return fn(geom)
+    pos = call.get("pos", DOCUMENTED_DEFAULT)
+    if form == "default":
+        return fn(geom)
+    if names is not None and form == "kw":
+        return fn(**{names[0]: geom, names[1]: pos})
+    if names is not None and form == "kw_rev":
+        return fn(**{names[1]: pos, names[0]: geom})
+    if names is not None and form == "mixed":
+        return fn(geom, **{names[1]: pos})
+    return fn(geom, pos)
 
 
 def _canon_raw(call, r):
@@ -505,7 +700,7 @@ def _impl_session(inp):
 
 
 def _to_model_session(inp):
-    return {"g": inp["g"], "calls": inp["calls"]}
+    return {"g": inp["g"], "calls": [_norm_call(c) for c in inp["calls"]]}
 
 
 def _cmp_session(inp, io, mo):
@@ -523,7 +718,60 @@ def _cmp_session(inp, io, mo):
     return "session: implementation and model disagree"
 
 
-MUTATIONS = ["assign", "copy_update", "deep_copy_update", "deepcopy_assign", "copy_assign"]
+MUTATIONS = ["assign", "copy_update", "deep_copy_update", "deepcopy_assign", "copy_assign",
+             # follow-up: in-place edits of the coordinate list (no assignment happens at all), unvalidated values
+             "inplace_slice", "inplace_items", "assign_raw_tuple", "assign_raw_int", "pickle_assign"]
+
+
+def _set_items(cur, new):
+    """make the list `cur` equal to `new` using item assignment only (every list object is kept)"""
+    if not (isinstance(cur, list) and isinstance(new, list) and len(cur) == len(new)):
+        return False
+    for i, (a, b) in enumerate(zip(cur, new)):
+        if isinstance(a, list) and isinstance(b, list):
+            if not _set_items(a, b):
+                cur[i] = b
+        else:
+            cur[i] = b
+    return True
+
+
+def _change(obj, coords, do):
+    """the object (or its successor) carrying the new coordinates, changed the way `do` says"""
+    if do == "assign":
+        obj.coordinates = coords
+    elif do == "copy_update":
+        obj = obj.model_copy(update={"coordinates": coords})
+    elif do == "deep_copy_update":
+        obj = obj.model_copy(update={"coordinates": coords}, deep=True)
+    elif do == "deepcopy_assign":
+        obj = copy.deepcopy(obj)
+        obj.coordinates = coords
+    elif do == "copy_assign":
+        obj = copy.copy(obj)
+        obj.coordinates = coords
+    elif do == "pickle_assign":
+        import pickle
+        obj = pickle.loads(pickle.dumps(obj))
+        obj.coordinates = coords
+    elif do == "inplace_slice":
+        if isinstance(obj.coordinates, list) and isinstance(coords, list):
+            obj.coordinates[:] = coords
+        else:
+            obj.coordinates = coords
+    elif do == "inplace_items":
+        if not _set_items(obj.coordinates, coords):
+            if isinstance(obj.coordinates, list) and isinstance(coords, list):
+                obj.coordinates[:] = coords
+            else:
+                obj.coordinates = coords
+    elif do == "assign_raw_tuple":
+        obj.coordinates = _tuples(coords)
+    elif do == "assign_raw_int":
+        obj.coordinates = _conv(coords, _leaf_int)
+    else:
+        raise AssertionError("unknown history step")
+    return obj
 
 
 def _impl_history(inp):
@@ -531,7 +779,6 @@ def _impl_history(inp):
     model_copy(update=...) / copy + assignment with new valid coordinates of the same type; every
     query must answer for the coordinates the object has at that step (geometries are not frozen,
     so nothing may be remembered across a change of the coordinates)"""
-    import copy
     obj, outs = None, []
     for step in inp["steps"]:
         do = step["do"]
@@ -542,21 +789,7 @@ def _impl_history(inp):
         if do == "new":
             obj = _build(step["g"], step.get("build", "validate"))
             continue
-        coords = gen_geom.coords_float(step["g"])
-        if do == "assign":
-            obj.coordinates = coords
-        elif do == "copy_update":
-            obj = obj.model_copy(update={"coordinates": coords})
-        elif do == "deep_copy_update":
-            obj = obj.model_copy(update={"coordinates": coords}, deep=True)
-        elif do == "deepcopy_assign":
-            obj = copy.deepcopy(obj)
-            obj.coordinates = coords
-        elif do == "copy_assign":
-            obj = copy.copy(obj)
-            obj.coordinates = coords
-        else:
-            raise AssertionError("unknown history step")
+        obj = _change(obj, gen_geom.coords_float(step["g"]), do)
     return {"val": outs}
 
 
@@ -583,6 +816,136 @@ def _cmp_history(inp, io, mo):
                         f"(query #{k} of {len(queries)})")
         return None
     return "history: implementation and model disagree"
+
+
+# ---------------------------------------------------------------- follow-up: histories through harness/history.py
+def _impl_call(inp):
+    """ONE call, on a geometry built through the given construction path, in the given call form; second
+    entry: the object's coordinates after the call"""
+    geom = _build(inp["g"], inp.get("build", "validate"))
+    res = _call_raw(geom, inp["call"])
+    return {"val": [_canon_raw(inp["call"], res), gen_geom.from_data(geom)]}
+
+
+def _to_model_call(inp):
+    return {"g": inp["g"], "calls": [_norm_call(inp["call"])]}
+
+
+def _cmp_call(inp, io, mo):
+    if not (isinstance(mo, dict) and "val" in mo and len(mo["val"]) == 2):
+        return "call: the model did not answer"
+    want = mo["val"][0]
+    got = {"raise": io["raise"]} if "raise" in io else (io["val"][0] if io.get("val") else None)
+    what = f"{inp['call']} (build={inp.get('build', 'validate')})"
+    if got != want:
+        if not (inp["call"]["op"] == "shape" and isinstance(got, dict) and _cmp_shape(inp, got, want) is None):
+            return f"{what} differs from the model"
+    if "val" in io and len(io["val"]) > 1 and io["val"][1] != mo["val"][1]:
+        return f"{what}: the geometry itself changed during the call (argument mutated)"
+    return None
+
+
+def _holds_call(ctx, inp, io):
+    c = _norm_call(inp["call"])
+    out = io["val"][0] if isinstance(io, dict) and io.get("val") else io
+    sub = {"g": inp["g"], "pos": c.get("pos")}
+    if c["op"] == "bounds":
+        return _holds_bounds(ctx, sub, out)
+    if c["op"] == "features":
+        return _holds_features(ctx, sub, out)
+    if c["op"] == "point":
+        return _holds_point(ctx, sub, out)
+    return None
+
+
+def _poison_item(x):
+    """mutate an element of a returned container in place (Feature objects are plain mutable models)"""
+    if hasattr(x, "value") and hasattr(x, "term"):
+        try:
+            x.value = float(x.value) + 1000.0
+            return True
+        except Exception:  # noqa: BLE001
+            return False
+    return False
+
+
+def _poison(res):
+    """what a caller may do to a value it was handed: extend / edit the list (`feats += other_features`),
+    edit its elements, write into an array.  False: nothing mutable was returned."""
+    import numpy as np
+    done = False
+    if isinstance(res, list):
+        if res and all(isinstance(x, (int, float)) for x in res):
+            res[:] = [-1.0] * len(res)
+            return True
+        for x in res:
+            done = _poison_item(x) or done
+        try:
+            from soundevent import data, terms
+            res.append(data.Feature(term=terms.duration, value=2.0))
+            res.append(data.Feature(term=terms.low_freq, value=1000.0))
+            res.append(data.Feature(term=terms.num_segments, value=7.0))
+            done = True
+        except Exception:  # noqa: BLE001
+            pass
+        return done
+    if isinstance(res, np.ndarray):
+        if res.flags.writeable and res.size:
+            res[...] = -1.0
+            return True
+        return False
+    if isinstance(res, dict):
+        if res:
+            res.clear()
+            return True
+        return False
+    if isinstance(res, tuple):
+        for x in res:
+            if isinstance(x, (list, dict, np.ndarray)):
+                done = _poison(x) or done
+        return done
+    return _poison_item(res)
+
+
+def _h_build(inp):
+    return {"geom": _build(inp["g"], inp.get("build", "validate")), "call": inp["call"]}
+
+
+def _h_modify(args, inp, how):
+    geom = args["geom"]
+    if getattr(geom, "type", None) != inp["g"]["type"] or how not in MUTATIONS:
+        return None
+    return {"geom": _change(geom, gen_geom.coords_float(inp["g"]), how), "call": inp["call"]}
+
+
+def _try_norm(gj):
+    """the validated value of a candidate geometry, None if the data model rejects it or it is not a
+    simple polygon (stay inside the quantifier of the exact comparisons)"""
+    try:
+        n = _norm(gj)
+    except Exception:  # noqa: BLE001
+        return None
+    return n if _simple(n) else None
+
+
+def _random_call(rng):
+    o = rng.choice(["bounds", "features", "features", "shape", "point", "point"])
+    if o != "point":
+        return {"op": o, "form": rng.choice(["pos", "pos", "kw"])}
+    return {"op": o, "pos": rng.choice(BOUNDS_POS), "form": rng.choice(FORMS)}
+
+
+def _h_variants(x, rng):
+    """neighbours of a base input: the same geometry with another call / call form / construction path,
+    and geometries that share a part of the content with it under the same call"""
+    out = [dict(x, call=_random_call(rng), build=rng.choice(BUILDS)) for _ in range(2)]
+    out.append(dict(x, call={"op": "features"}))
+    for n in G5.neighbours(x["g"], rng):
+        n = _try_norm(n)
+        if n is not None and n != x["g"]:
+            out.append(dict(x, g=n))
+            out.append(dict(x, g=n, build=rng.choice(BUILDS)))
+    return out
 
 
 class _Foreign:
@@ -645,19 +1008,36 @@ OPS = {
     "centroid": Op("centroid", _impl_centroid, to_model=_to_model_centroid, compare=_cmp_centroid,
                    determined=False, mode="tolerance"),
     "session": Op("session", _impl_session, to_model=_to_model_session, compare=_cmp_session),
-    "history": Op("history", _impl_history, compare=_cmp_history),
+    "history": Op("history", _impl_history, to_model=lambda inp: {"steps": [
+        dict(s_, calls=[_norm_call(c) for c in s_["calls"]]) if s_["do"] == "query" else s_ for s_ in inp["steps"]]},
+        compare=_cmp_history),
     "dispatch": Op("dispatch", _impl_dispatch, nontrivial=lambda inp, out: True, determined=False),
+    # follow-up: one call through a construction path and a call form; histories of such calls
+    "call": Op("call", _impl_call, to_model=_to_model_call, compare=_cmp_call, holds=_safe(_holds_call), model_op="session"),
 }
+OPS["call_history"] = hist.history_op(
+    "call_history", OPS["call"], build=_h_build,
+    call=lambda args: _call_raw(args["geom"], args["call"]),
+    canon=lambda inp, args, res: {"val": [_canon_raw(inp["call"], res)]},
+    snapshot=lambda args: gen_geom.from_data(args["geom"]),
+    modify=_h_modify, poison=_poison)
 
 
 def _rounding_excursion(failure, m):
     """known finding: shapely's centroid leaves the bounds by an ulp or so along an axis on which the
-    geometry has zero extent -- only this position, only such axes, only below the magnitude bound"""
+    geometry has zero extent, or an extent of a few ulps (`max_rel_extent`) -- only this position, only such
+    axes, only below the magnitude bound"""
     if failure.kind != "property" or failure.inp.get("pos") != m.get("position"):
         return False
     d = failure.detail
-    if "rel_excursion=" not in d or "zero_extent_axis_only=True" not in d:
+    if "rel_excursion=" not in d:
         return False
+    flat = "zero_extent_axis_only=True" in d
+    if not flat:
+        if "violated_axis_rel_extent=" not in d or "max_rel_extent" not in m:
+            return False
+        if float(d.split("violated_axis_rel_extent=")[1].split()[0]) > float(Fraction(m["max_rel_extent"])):
+            return False
     ex = float(d.split("rel_excursion=")[1].split()[0])
     return 0 < ex <= float(Fraction(m["max_rel_excursion"]))
 
@@ -720,6 +1100,14 @@ def _table_obligations(ctx):
                        "theorem keys_only : ∀ k ∈ keys, k ∈ SE.Bnd.featureTypes := by decide\n"
                        "theorem table_total (g : SE.Geom) : g.tag ∈ keys :=\n"
                        "  SE.Proofs.C05.C05_feature_table_total keys keys_cover g\n", {"op": "features"})
+    ctx.stage("signatures", _signature_obligations, ctx)
+    # the five feature terms are told apart by equality with the library's term objects: they must be five
+    # different terms carrying the names the feature documentation gives them
+    from soundevent import terms
+    ts = [getattr(terms, n, None) for n in FEATURE_NAMES]
+    ctx.contract("feature_terms_distinct", all(t is not None for t in ts)
+                 and all(ts[i] != ts[j] for i in range(len(ts)) for j in range(i)), None,
+                 [str(getattr(t, "name", t)) for t in ts], detail="the feature terms of soundevent.terms are not five distinct terms")
     mf = getattr(data, "MAX_FREQUENCY", None)
     if not isinstance(mf, (int, float)) or isinstance(mf, bool):
         ctx.fail("obligation", "max_frequency", detail="`MAX_FREQUENCY` not found", extra={"op": "bounds"})
@@ -728,11 +1116,50 @@ def _table_obligations(ctx):
                        f"example : SE.MAXF = {st.lit(Fraction(mf))} := by decide +kernel\n", {"op": "bounds"})
 
 
+def _signature_obligations(ctx):
+    """the parameter lists of the four public functions, re-read by introspection: the geometry first and
+    required, then (get_geometry_point) the position with a default that is one of the names, then only
+    parameters with defaults -- the shape `C05_call_forms` / `C05_call_forms_unary` speak about, so that the
+    positional, keyword and mixed call forms the check uses all denote the same (geometry, position)"""
+    for o, fn in _public().items():
+        ps = _params(fn)
+        if ps is None:
+            ctx.note(f"signature of the `{o}` function cannot be inspected: keyword call forms not used for it")
+            continue
+        if o == "point" and _declared_default() is None:
+            ctx.note("get_geometry_point declares no position name as default: the call without position is held to "
+                     "the documented 'bottom-left', signature obligation not generated")
+            continue
+        need = 2 if o == "point" else 1
+        if any(k == inspect.Parameter.KEYWORD_ONLY for _n, _h, _d, k in ps[:need]):
+            ctx.fail("obligation", "signature_" + o, detail="a documented positional parameter became keyword-only",
+                     extra={"op": "call"})
+            continue
+
+        def tok(d):
+            return d if isinstance(d, str) else "<" + type(d).__name__ + ">"
+        items = ", ".join("⟨" + _lean_strs([n])[1:-1] + ", " + ("some " + _lean_strs([tok(d)])[1:-1] if has else "none") + "⟩"
+                          for n, has, d, _k in ps)
+        ctx.obligation("signature_" + o,
+                       f"example : SE.Bnd.sigOK ([{items}] : List SE.Bnd.Param) {'true' if o == 'point' else 'false'} = true "
+                       ":= by decide\n", {"op": "call"})
+
+
 # ---------------------------------------------------------------- tie 1b: symbolic traces
 def _feature_leaf(v):
     """[(term, value), ...] recorded by the Feature stub -> Lean `some [("name", value), ...]`"""
     items = ", ".join(f'("{_term_name(t)}", {symx.num(x)})' for t, x in v)
     return f"some [{items}]"
+
+
+class _StubFeature:
+    """a Feature stand-in: a (term, value) record that also answers `.term` / `.value`"""
+
+    def __init__(self, term, value):
+        self.term, self.value = term, value
+
+    def __iter__(self):
+        return iter((self.term, self.value))
 
 
 class _StubGeometry:
@@ -992,7 +1419,7 @@ def _symbolic_ties(ctx):
     import shapely
     import soundevent.geometry.conversion as convmod
     from soundevent import data as datamod
-    feat_stub = lambda term=None, value=None, **kw: (term, value)   # noqa: E731
+    feat_stub = lambda term=None, value=None, **kw: _StubFeature(term, value)   # noqa: E731
     conv_stub = lambda g: _StubShape(g._bounds)   # noqa: E731
     by_id = [(datamod.Feature, feat_stub), (convmod.geometry_to_shapely, conv_stub)]
     attrs = {"bounds": lambda g, **kw: g.bounds, "get_num_geometries": lambda g, **kw: len(g.geoms)}
@@ -1163,13 +1590,13 @@ def random_geometries(rng, n):
         kw = {}
         if rng.random() < 0.25:
             kw = {"tmin": 0.0, "fmin": 0.0}
-        g = gen_geom.gen_valid(rng, ty, tmax=tmax, fmax=fmax, k=k, **kw)
+        g = _gen_valid(rng, ty, tmax=tmax, fmax=fmax, k=k, **kw)
         out.append(_norm(g))
     # polygons with holes, explicitly
     for _ in range(max(2, n // 12)):
         rings = gen_geom._poly(rng, 0.0, 8.0, 0.0, 8.0, 3, holes=True)
         g = {"type": "Polygon", "coordinates": gen_geom._enc(rings)}
-        if gen_geom.is_simple(g):
+        if _simple(g):
             out.append(_norm(g))
     return out
 
@@ -1246,13 +1673,13 @@ def oriented_variants(rng, n):
         rings = gen_geom._poly(rng, 0.0, 8.0, 0.0, 8.0, 3, holes=True)
         rings = [list(reversed(r)) if rng.random() < 0.5 else r for r in rings]
         g = {"type": "Polygon", "coordinates": gen_geom._enc(rings)}
-        if gen_geom.is_simple(g):
+        if _simple(g):
             out.append(_norm(g))
         a = gen_geom._poly(rng, 0.0, 3.0, 0.0, 8.0, 3, holes=(i % 2 == 0))
         b = gen_geom._poly(rng, 4.0, 8.0, 0.0, 8.0, 3, holes=False)
         polys = [[list(reversed(r)) if rng.random() < 0.5 else r for r in a], [list(reversed(r)) for r in b]]
         g = {"type": "MultiPolygon", "coordinates": gen_geom._enc(polys)}
-        if gen_geom.is_simple(g):
+        if _simple(g):
             out.append(_norm(g))
     out += [_norm(g) for g in [
         _g("LineString", [[1, 2], [1, 2], [3, 4], [3, 4], [5, 1]]),
@@ -1351,7 +1778,7 @@ def histories(rng, n):
     out = []
     for i in range(n):
         ty = gen_geom.TYPES[i % len(gen_geom.TYPES)]
-        gs = [_norm(gen_geom.gen_valid(rng, ty, tmax=8.0, fmax=8.0, k=3)) for _ in range(4)]
+        gs = [_norm(_gen_valid(rng, ty, tmax=8.0, fmax=8.0, k=3)) for _ in range(4)]
         if gs[1]["type"] != ty or any(g["type"] != ty for g in gs):
             continue      # gen_valid fell back to a box
         def query():
@@ -1379,27 +1806,307 @@ def _history_stage(ctx):
     ctx.run_cases(OPS["history"], hs)
 
 
+def _dedupe(geoms):
+    seen, out = set(), []
+    for g in geoms:
+        k = jkey(g)
+        if k not in seen:
+            seen.add(k)
+            out.append(g)
+    return out
+
+
+def _valid_only(cands):
+    return _dedupe([n for n in (_try_norm(g) for g in cands) if n is not None])
+
+
+def _boundary_stage(ctx):
+    """HISTORIES.md section 4: extents of 2^-7 ... 2^-40 next to small and large offsets (relative extent
+    down to 10^-12), bounds decided at the last bits and exact ties, on every type; exact mode (all
+    coordinates dyadic with exact sums)"""
+    tiny = _valid_only(G5.tiny_extents())
+    ties = _valid_only(G5.epsilon_ties(ctx.rng, ctx.budget(90, 900)))
+    _run_stream(ctx, tiny, "tiny-extent")
+    _run_stream(ctx, ties, "epsilon-tie")
+    ctx.run_cases(OPS["centroid"], [{"g": g} for g in tiny + ties])
+    ctx.exhaustive["tolerance-sized extents"] = (
+        f"{len(tiny)} geometries: 5 time offsets (0 ... 86400 s) x 10 extents 2^-7 ... 2^-40 x 4 frequency offsets "
+        "(0 ... 4 MHz), eleven shapes each (all types with an extent) x all operations x all positions")
+
+
+def _size_stage(ctx):
+    """sizes where an implementation could switch strategy: 16/17, 256/257, 1023/1024/1100 vertices, 17 / 300 parts"""
+    big = _valid_only(G5.sized(ctx.rng))
+    for g in big:
+        ctx.tally(f"sized:{g['type']}")
+    gs = [{"g": g} for g in big]
+    ctx.run_cases(OPS["bounds"], gs)
+    ctx.run_cases(OPS["features"], gs)
+    ctx.run_cases(OPS["shape"], gs)
+    ctx.run_cases(OPS["point"], [{"g": g, "pos": p_} for g in big for p_ in ("top-left", "bottom-right", "center")])
+    ctx.run_cases(OPS["lib_point"], _with_positions(big, LIB_POS))
+    ctx.exhaustive["size thresholds"] = (f"{len(big)} geometries with 16, 17, 256, 257, 1023, 1024, 1100 vertices "
+                                         "(lines, point sets, rings) and 17 / 300 parts (multi-lines, multi-polygons)")
+
+
+def _lattice_stage(ctx):
+    """every point of two non-dyadic axes (0.01 s, 0.1 Hz): values must come back as those very floats"""
+    lat = _valid_only(G5.lattice())
+    _tally_geoms(ctx, lat, "lattice")
+    gs = [{"g": g} for g in lat]
+    ctx.run_cases(OPS["bounds"], gs)
+    ctx.run_cases(OPS["shape"], gs)
+    ctx.run_cases(OPS["features_free"], gs)
+    ctx.run_cases(OPS["point_free"], _with_positions(lat, ["bottom-left", "top-right", "center"]))
+    ctx.exhaustive["non-dyadic lattice"] = f"all 121 points k * 0.01 s / k * 0.1 Hz as stamps, intervals, boxes ({len(lat)} geometries)"
+
+
+def _sibling_stage(ctx):
+    """HISTORIES.md section 3: every special case and a random sample carried through every sibling type"""
+    base = special_geometries() + random_geometries(ctx.rng, ctx.budget(90, 900))
+    lifts = _valid_only([x for g in base for x in G5.sibling_lifts(g)])
+    _run_stream(ctx, lifts, "sibling")
+    ctx.run_cases(OPS["centroid"], [{"g": g} for g in lifts])
+
+
+def call_cases(rng, geoms):
+    """every geometry through one construction path (cycled) and four call forms (cycled with another period)"""
+    calls = ([{"op": o, "form": f} for o in ("bounds", "features", "shape") for f in ("pos", "kw")]
+             + [{"op": "point", "pos": p_, "form": f} for p_ in BOUNDS_POS for f in FORMS if f != "default"]
+             + [{"op": "point", "form": "default"}] * 3)
+    out = []
+    for i, g in enumerate(geoms):
+        b = BUILDS[i % len(BUILDS)]
+        for j in range(4):
+            out.append({"g": g, "call": calls[(5 * i + 7 * j) % len(calls)], "build": b})
+    return out
+
+
+def _call_stage(ctx):
+    """HISTORIES.md section 2: construction paths x call forms x types, one call each"""
+    geoms = special_geometries() + random_geometries(ctx.rng, ctx.budget(220, 2200))
+    # every type through every construction path at least once
+    for ty, g in _SAMPLE.items():
+        geoms += [_norm(g)] * len(BUILDS)
+    cases = call_cases(ctx.rng, geoms)
+    k = len(cases)
+    for ty, g in _SAMPLE.items():
+        for b in BUILDS:
+            cases.append({"g": _norm(g), "call": {"op": "features", "form": "kw"}, "build": b})
+            cases.append({"g": _norm(g), "call": {"op": "point", "pos": "top-right", "form": "kw_rev"}, "build": b})
+            cases.append({"g": _norm(g), "call": {"op": "shape"}, "build": b})
+    for c in cases:
+        ctx.tally("call:build=" + c["build"])
+        ctx.tally("call:form=" + c["call"].get("form", "pos"))
+    ctx.run_cases(OPS["call"], cases)
+    ctx.exhaustive["construction paths"] = (f"{len(BUILDS)} construction paths x 9 types x {{features, shape, point}} "
+                                            f"({len(cases) - k} cases) besides the cycled ones")
+
+
+def _second_samples():
+    return {
+        "TimeStamp": _g("TimeStamp", 3), "TimeInterval": _g("TimeInterval", [0, 5]), "Point": _g("Point", [3, 7]),
+        "LineString": _g("LineString", [[0, 1], [2, 9], [4, 3]]), "BoundingBox": _g("BoundingBox", [0, 1, 4, 9]),
+        "Polygon": _g("Polygon", [[[0, 0], [8, 0], [8, 8], [0, 8], [0, 0]], [[2, 2], [4, 2], [4, 4], [2, 2]]]),
+        "MultiPoint": _g("MultiPoint", [[0, 1], [5, 9]]),
+        "MultiLineString": _g("MultiLineString", [[[0, 1], [2, 9]], [[3, 3], [6, 0]]]),
+        "MultiPolygon": _g("MultiPolygon", [[[[0, 0], [8, 0], [8, 8], [0, 0]]], [[[9, 1], [12, 1], [12, 9], [9, 1]]]]),
+    }
+
+
+def poison_sweep():
+    """for every type and every call: x (result poisoned), x again from a fresh equal object, y (poisoned),
+    x again, y on the object re-assigned from x -- a shared mutable return value, a result cached per content
+    or per type shows as a wrong later answer"""
+    out = []
+    second = _second_samples()
+    calls = [{"op": "bounds"}, {"op": "features"}, {"op": "shape"}, {"op": "point", "pos": "center"},
+             {"op": "point", "pos": "top-left", "form": "kw"}, {"op": "point", "form": "default"}]
+    for ty in gen_geom.TYPES:
+        x, y = _norm(_SAMPLE[ty]), _norm(second[ty])
+        for c in calls:
+            X, Y = {"g": x, "call": c, "build": "validate"}, {"g": y, "call": c, "build": "class"}
+            out.append({"seq": [{"inp": X, "poison": True}, {"inp": X}, {"inp": Y, "poison": True}, {"inp": X},
+                                {"inp": Y, "reuse": "assign", "poison": True}, {"inp": X, "reuse": "inplace_items"},
+                                {"inp": Y}]})
+    return out
+
+
+def _with_canaries(h):
+    """a history that poisons results checks itself: after the last step, every poisoned call is made again
+    on a fresh object of equal content and on other content of the same type, so that whatever the poison
+    did to the state of the process shows inside this very history (the replay is then self-contained)"""
+    second = _second_samples()
+    extra, seen = [], set()
+    for st_ in h["seq"]:
+        if not st_.get("poison"):
+            continue
+        inp = st_["inp"]
+        for cand in (dict(inp), dict(inp, g=_norm(second[inp["g"]["type"]]), build="validate")):
+            k = jkey(cand)
+            if k not in seen:
+                seen.add(k)
+                extra.append({"inp": copy.deepcopy(cand)})
+    return {"seq": h["seq"] + extra} if extra else h
+
+
+def _corpus_histories():
+    """corpus entries of the poisoning operation (run in the last stage, not with the rest of the corpus)"""
+    import json
+    import os
+    from ..leanio import VERIF
+    d = os.path.join(VERIF, "corpus", PROPERTY)
+    out = []
+    for fn in sorted(os.listdir(d)) if os.path.isdir(d) else []:
+        if fn.endswith(".json"):
+            rec = json.load(open(os.path.join(d, fn)))
+            out += [r["input"] for r in (rec if isinstance(rec, list) else [rec])
+                    if r.get("op") == "call_history" and "input" in r]
+    return out
+
+
+def _call_history_stage(ctx):
+    """HISTORIES.md section 1 through harness/history.py: x, a neighbour of x, x again ... on fresh and on
+    re-used objects, with poisoned results; every step judged by the model of the single call
+    (`C05_history_pure`), arguments snapshotted around every call, live results re-read at the end.
+    Runs LAST, the poisoning histories one at a time and only until the first one fails: a failure seen
+    earlier in the run can then never be the after-effect of a poisoned result."""
+    geoms = special_geometries() + random_geometries(ctx.rng, ctx.budget(150, 1500))
+    base = [{"g": g, "call": _random_call(ctx.rng), "build": ctx.rng.choice(BUILDS)} for g in geoms]
+    hs = hist.sequences(ctx.rng, base, ctx.budget(260, 2600), variants=_h_variants, reuse_hows=MUTATIONS, poison=True)
+    clean = [h for h in hs if not any(st_.get("poison") for st_ in h["seq"])]
+    corpus = _corpus_histories()
+    ctx.tally("corpus:call_history", len(corpus))
+    dirty = corpus + poison_sweep() + [_with_canaries(h) for h in hs if any(st_.get("poison") for st_ in h["seq"])]
+    ctx.exhaustive["poisoned results"] = ("9 types x 6 calls x (x poisoned, x, y poisoned, x, y re-assigned poisoned, "
+                                          "x edited in place, y)")
+
+    def tally(h):
+        for st_ in h["seq"]:
+            ctx.tally("call_history:" + (st_.get("reuse") or "fresh") + ("+poison" if st_.get("poison") else ""))
+    for h in clean:
+        tally(h)
+    ctx.run_cases(OPS["call_history"], clean)
+    for i, h in enumerate(dirty):
+        tally(h)
+        if ctx.run_cases(OPS["call_history"], [h]):
+            ctx.note(f"call-histories: stopped after the first failing poisoned history ({len(dirty) - i - 1} not run)")
+            break
+
+
 def _dispatch_stage(ctx):
     ctx.run_cases(OPS["dispatch"], [{"tag": t_} for t_ in gen_geom.TYPES + UNKNOWN_TAGS])
     ctx.exhaustive["type dispatch"] = f"the nine type tags and {len(UNKNOWN_TAGS)} foreign tags x both dispatching functions"
 
 
+def _timed(ctx, name, fn, *a):
+    import time
+    t0 = time.process_time()
+    r = ctx.stage(name, fn, *a)
+    ctx.tally("cpu_seconds:" + name, round(time.process_time() - t0, 1))
+    return r
+
+
 def run(ctx):
-    ctx.stage("tables", _table_obligations, ctx)
-    ctx.stage("symbolic-ties", _symbolic_ties, ctx)
-    ctx.stage("discharge", ctx.discharge, ["SoundeventModel.Bounds", "SoundeventModel.Tactics", "Proofs.C05"])
-    ctx.stage("corpus", ctx.run_corpus, OPS)
-    ctx.stage("special-cases", _special_stage, ctx)
-    ctx.stage("grid-correspondence", _grid_stage, ctx)
-    ctx.stage("free-correspondence", _free_stage, ctx)
-    ctx.stage("ogc-invalid-polygons", _invalid_stage, ctx)
-    ctx.stage("centroid-correspondence", _centroid_stage, ctx)
-    ctx.stage("sessions", _session_stage, ctx)
-    ctx.stage("histories", _history_stage, ctx)
-    ctx.stage("dispatch", _dispatch_stage, ctx)
+    _timed(ctx, "tables", _table_obligations, ctx)
+    _timed(ctx, "symbolic-ties", _symbolic_ties, ctx)
+    _timed(ctx, "discharge", ctx.discharge, ["SoundeventModel.Bounds", "SoundeventModel.Tactics", "Proofs.C05"])
+    _timed(ctx, "corpus", ctx.run_corpus, {k: v for k, v in OPS.items() if k != "call_history"})
+    _timed(ctx, "special-cases", _special_stage, ctx)
+    _timed(ctx, "grid-correspondence", _grid_stage, ctx)
+    _timed(ctx, "free-correspondence", _free_stage, ctx)
+    _timed(ctx, "ogc-invalid-polygons", _invalid_stage, ctx)
+    _timed(ctx, "centroid-correspondence", _centroid_stage, ctx)
+    _timed(ctx, "sessions", _session_stage, ctx)
+    _timed(ctx, "histories", _history_stage, ctx)
+    _timed(ctx, "dispatch", _dispatch_stage, ctx)
+    # follow-up: histories, construction paths, siblings, boundaries (HISTORIES.md)
+    _timed(ctx, "call-forms-and-construction-paths", _call_stage, ctx)
+    _timed(ctx, "sibling-lifts", _sibling_stage, ctx)
+    _timed(ctx, "numeric-boundaries", _boundary_stage, ctx)
+    _timed(ctx, "size-thresholds", _size_stage, ctx)
+    _timed(ctx, "non-dyadic-lattice", _lattice_stage, ctx)
+    _timed(ctx, "call-histories", _call_history_stage, ctx)      # last: the only stage that poisons results
+    ctx.stage("verify-replays", _verify_replays, ctx)
+
+
+HISTORY_OPS = ("session", "history", "call_history")
+
+
+def _fails_in_fresh_process(ctx, f, k):
+    """is the recorded input judged a violation when it is all a new process does?  (`./check --replay` on a
+    scratch record; None: no verdict)"""
+    import json
+    import os
+    import subprocess
+    import sys
+    from ..leanio import VERIF
+    d = os.path.join(VERIF, ".run")
+    os.makedirs(d, exist_ok=True)
+    path = os.path.join(d, f"verify_{os.getpid()}_{k}.json")
+    seed = 900000 + k
+    try:
+        json.dump({"property": PROPERTY, "kind": f.kind, "op": f.op, "input": f.inp}, open(path, "w"), default=str)
+        p_ = subprocess.run([sys.executable, os.path.join(VERIF, "check"), PROPERTY, "--tier", ctx.tier, "--seed", str(seed),
+                             "--replay", path], cwd=VERIF, stdout=subprocess.PIPE, stderr=subprocess.DEVNULL, text=True,
+                            timeout=300)
+        return {0: False, 1: True}.get(p_.returncode)
+    except Exception:  # noqa: BLE001
+        return None
+    finally:
+        for fn in [path] + [os.path.join(VERIF, "replays", f"{PROPERTY}_{ctx.tier}_{seed}_{i}.json") for i in range(5)]:
+            try:
+                os.remove(fn)
+            except OSError:
+                pass
+
+
+def _verify_replays(ctx, budget=8):
+    """A replay must fail on its own.  When the code keeps state between calls (a cache, a shared return
+    value, a remembered option) an input can fail in this run only because of what was called before it; such
+    a record is not a replay.  Every failure that would be reported is therefore judged again as the only
+    thing a fresh process does (`./check --replay`); those that pass there are set aside in favour of
+    failures that reproduce (histories carry their own prefix and are tried first).  If nothing reproduces,
+    the smallest one is kept and says so.  Nothing is done on a run without failures."""
+    import sys
+    from ..core import load_findings, match_finding
+    mod = sys.modules[__name__]
+    findings = load_findings(PROPERTY)
+    cand = [f for f in ctx.failures if f.kind == "property" and f.op in OPS and f.inp is not None
+            and match_finding(mod, findings, f) is None]
+    if not cand:
+        return
+    cand.sort(key=lambda f: (0 if f.op in HISTORY_OPS else 1, f.size()))
+    kept, stateful, unverified = set(), [], []
+    for k, f in enumerate(cand):
+        sig = (f.op, f.detail[:60])
+        if sig in kept:
+            continue
+        if len(kept) >= 5 or budget <= 0:
+            unverified.append(f)
+            continue
+        budget -= 1
+        if _fails_in_fresh_process(ctx, f, k) is False:
+            f.detail += " [passes as the only call of a fresh process: it failed through state carried over from earlier calls of this run]"
+            stateful.append(f)
+        else:
+            kept.add(sig)
+    if not stateful:
+        return
+    if kept:
+        # failures with the signature of a verified one stay, everything else is not needed for the report
+        dropped = stateful + [f for f in unverified if (f.op, f.detail[:60]) not in kept]
+    else:
+        stateful.sort(key=lambda f: f.size())
+        dropped = stateful[1:]         # nothing reproduces on its own: report the smallest, annotated
+    ids = {id(f) for f in dropped}
+    ctx.failures[:] = [f for f in ctx.failures if id(f) not in ids]
+    ctx.note(f"{len(dropped)} failing inputs set aside (they fail only after earlier calls in the same process, or were "
+             "not needed once self-contained replays were confirmed)")
 
 
 def search(ctx, failures):
     """a tie or table obligation broke: every operation on the special cases and a wide random stream"""
     ctx.stage("search-special", _run_stream, ctx, special_geometries(), "search-special")
     ctx.stage("search-grid", _run_stream, ctx, random_geometries(ctx.rng, 900), "search-grid")
+    ctx.stage("verify-replays", _verify_replays, ctx)
